@@ -435,6 +435,13 @@ func (x *Exec) instr(fr *Frame, ins ssa.Instruction) {
 	case *ssa.MakeSlice:
 		n := fr.get(x, ins.Len).(*Term)
 		cp := fr.get(x, ins.Cap).(*Term)
+		if ii, ok := basicInfo(ins.Len.Type()); ok && n.w < 64 {
+			if ii.signed {
+				n = x.c.st.Sext(n, 64)
+			} else {
+				n = x.c.st.Zext(n, 64)
+			}
+		}
 		ln := x.allocLen(n)
 		cn := ln
 		if cp.op == OpConst && int(sval(cp.w, cp.k)) > ln {
